@@ -6,7 +6,10 @@ import (
 	"fmt"
 	"math/big"
 	"math/rand"
+	"os"
 	"path/filepath"
+	"sort"
+	"strings"
 	"runtime"
 	"sync"
 	"testing"
@@ -105,6 +108,9 @@ type c16Cfg struct {
 	// FinalFork: when the chain stops growing, one more fork drops the block of the last
 	// injection and the same root is injected again on the new fork, nothing after it
 	FinalFork bool `json:"final_fork_reinjects_last_root"`
+	// ForkEmptyTail: forks replace blocks WITHOUT events, which the node has already been served,
+	// by blocks with events (nothing the node tracks changes its hash unless it tracks range ends)
+	ForkEmptyTail bool `json:"forks_replace_served_empty_blocks_by_blocks_with_events"`
 }
 
 type gerNode struct {
@@ -205,9 +211,30 @@ func c16Run(r *mon.Run, caseID string, g *rand.Rand, cfg c16Cfg) {
 		var liveList, removedList []common.Hash
 		growing := true
 		forksLeft := cfg.Forks
+		// roots whose removal was carried by a block that a fork dropped later (the node may have
+		// executed the DELETE; nothing restores the row: known finding shared with C04)
+		droppedRemovals := map[common.Hash]bool{}
+		noteDropped := func(c *fakes.Chain, at uint64) {
+			rem := l2GERABI.Events["UpdateRemovalHashChainValue"].ID
+			for _, b := range c.Canonical() {
+				if b.Num() < at {
+					continue
+				}
+				for _, l := range b.Logs {
+					if l.Address == l2GERAddr && len(l.Topics) > 1 && l.Topics[0] == rem {
+						droppedRemovals[l.Topics[1]] = true
+					}
+				}
+			}
+		}
 		// one GER event at most per L2 block
+		pctOverride := -1
 		gen := func(num uint64, ph common.Hash, ts uint64) []fakes.LogSpec {
-			if g.Intn(100) >= cfg.EventPct {
+			pct := cfg.EventPct
+			if pctOverride >= 0 {
+				pct = pctOverride
+			}
+			if g.Intn(100) >= pct {
 				return nil
 			}
 			switch {
@@ -259,6 +286,9 @@ func c16Run(r *mon.Run, caseID string, g *rand.Rand, cfg c16Cfg) {
 			if live[ger] {
 				out[31] = 1
 			}
+			if os.Getenv("VERIF_DEBUG_DIR") != "" {
+				c.Note("call globalExitRootMap(%s idx %d) at head %d -> %v", ger.Hex()[:10], l1.byGER[ger], c.Latest(), live[ger])
+			}
 			return out, nil
 		}
 		ch.Hook = func(c *fakes.Chain, m string, a any) error {
@@ -284,10 +314,30 @@ func c16Run(r *mon.Run, caseID string, g *rand.Rand, cfg c16Cfg) {
 				}
 				l1.mu.Unlock()
 			}
-			if forksLeft > 0 && g.Intn(30) == 0 {
+			emptyTail := 0
+			if cfg.ForkEmptyTail && forksLeft > 0 && c.MaxServed.Load() >= c.Latest() {
+				canon := c.Canonical()
+				for k := len(canon) - 1; k > int(c.Finalized()) && emptyTail < 5; k-- {
+					has := false
+					for _, l := range canon[k].Logs {
+						if l.Address == l2GERAddr {
+							has = true
+						}
+					}
+					if has {
+						break
+					}
+					emptyTail++
+				}
+			}
+			if forksLeft > 0 && ((!cfg.ForkEmptyTail && g.Intn(30) == 0) || (emptyTail > 0 && g.Intn(6) == 0)) {
 				head, fin := c.Latest(), c.Finalized()
 				if head > fin+1 {
 					depth := 1 + g.Intn(min(5, int(head-fin)))
+					if cfg.ForkEmptyTail {
+						depth = 1 + g.Intn(emptyTail)
+						pctOverride = 100
+					}
 					at := head - uint64(depth) + 1
 					// the generator must not remember roots inserted only on the dropped blocks
 					old := liveList
@@ -305,7 +355,10 @@ func c16Run(r *mon.Run, caseID string, g *rand.Rand, cfg c16Cfg) {
 							nextIdx = int(l1.byGER[ger]) + 1
 						}
 					}
-					if nb := c.Fork(at, depth+g.Intn(3), gen); nb == nil {
+					noteDropped(c, at)
+					nb := c.Fork(at, depth+g.Intn(3), gen)
+					pctOverride = -1
+					if nb == nil {
 						nextIdx = oldNext
 						liveList = old
 					} else {
@@ -335,7 +388,9 @@ func c16Run(r *mon.Run, caseID string, g *rand.Rand, cfg c16Cfg) {
 			return
 		}
 		restartsLeft := cfg.Restarts
+		hmu.Lock()
 		nextRestart := ch.Calls() + int64(10+g.Intn(150))
+		hmu.Unlock()
 		deadline := time.Now().Add(90 * time.Second)
 		for time.Now().Before(deadline) {
 			hmu.Lock()
@@ -343,9 +398,11 @@ func c16Run(r *mon.Run, caseID string, g *rand.Rand, cfg c16Cfg) {
 			hmu.Unlock()
 			if restartsLeft > 0 && (ch.Calls() >= nextRestart || !gr) {
 				node.stop()
+				hmu.Lock()
 				trace = append(trace, fmt.Sprintf("restart at RPC call %d (head %d)", ch.Calls(), ch.Latest()))
 				restartsLeft--
 				nextRestart = ch.Calls() + int64(10+g.Intn(150))
+				hmu.Unlock()
 				if node, err = startGERNode(ch, dir, l1, mode); err != nil {
 					r.Violation("C16:cannot-restart", caseID, err.Error(), scen)
 					return
@@ -380,6 +437,7 @@ func c16Run(r *mon.Run, caseID string, g *rand.Rand, cfg c16Cfg) {
 				}
 				sortHashes(dropped)
 				k := 0
+				noteDropped(ch, lastIns)
 				nb := ch.Fork(lastIns, int(ch.Latest()-lastIns)+2+len(dropped), func(num uint64, ph common.Hash, ts uint64) []fakes.LogSpec {
 					if k < len(dropped) {
 						k++
@@ -414,6 +472,10 @@ func c16Run(r *mon.Run, caseID string, g *rand.Rand, cfg c16Cfg) {
 			}
 			time.Sleep(2 * time.Millisecond)
 		}
+		var diag map[string]any
+		if diff != "" {
+			diag = c16Diagnose(node.s, ch, l1)
+		}
 		node.stop()
 		if diff != "" {
 			ev := ch.Events()
@@ -421,14 +483,32 @@ func c16Run(r *mon.Run, caseID string, g *rand.Rand, cfg c16Cfg) {
 				ev = ev[len(ev)-120:]
 			}
 			scen["chain_events_tail"] = ev
+			if dir := os.Getenv("VERIF_DEBUG_DIR"); dir != "" {
+				_ = os.WriteFile(filepath.Join(dir, "C16-"+strings.ReplaceAll(caseID, "/", "_")+"-events.txt"), []byte(strings.Join(ch.Events(), "\n")), 0o644)
+			}
+			scen["diagnosis"] = diag
 			cls := "block-by-block"
 			if cfg.MaxJump > 1 {
 				cls = "tip-advances-by-more-than-one"
 			}
+			// every disagreement is a root that is live on the canonical chain, missing in the node's
+			// table, and whose removal sat on a block dropped by a fork: the destructive delete that a
+			// reorg does not undo (lastgersync/processor.go deleteGERSql; known finding, see C04)
+			if miss, ok := diag["missing_live_roots"].([]common.Hash); ok && len(miss) > 0 && diag["stale_rows"].(int) == 0 {
+				all := true
+				for _, m := range miss {
+					if !droppedRemovals[m] {
+						all = false
+					}
+				}
+				if all {
+					cls = "root-deleted-by-a-removal-on-a-dropped-fork-is-not-restored"
+				}
+			}
 			r.Violation(fmt.Sprintf("C16:%s:injected-root-index-wrong:%s", cfg.Mode, cls), caseID, diff, scen)
 			return
 		}
-		r.Eval(fmt.Sprintf("%s/jump=%d/removals=%v/restarts=%d/forks=%d/l1lag=%v/err=%v", cfg.Mode, min(cfg.MaxJump, 10), cfg.Removals, min(cfg.Restarts, 2), min(cfg.Forks, 2), cfg.L1Lag, cfg.ErrPct > 0)+fmt.Sprintf("/finalfork=%v", cfg.FinalFork))
+		r.Eval(fmt.Sprintf("%s/jump=%d/removals=%v/restarts=%d/forks=%d/l1lag=%v/err=%v", cfg.Mode, min(cfg.MaxJump, 10), cfg.Removals, min(cfg.Restarts, 2), min(cfg.Forks, 2), cfg.L1Lag, cfg.ErrPct > 0)+fmt.Sprintf("/finalfork=%v/emptytail=%v", cfg.FinalFork, cfg.ForkEmptyTail))
 		r.Add("ger_events_on_final_chain", len(liveGERs(ch.Canonical(), 1<<62)))
 		if len(trace) > 0 {
 			r.Sample(map[string]any{"config": cfg, "trace": trace, "head": ch.Latest()})
@@ -472,9 +552,89 @@ func TestC16(t *testing.T) {
 		}
 		cfg.L1Lag = g.Intn(4) == 0
 		cfg.FinalFork = g.Intn(3) == 0
+		if i%5 == 4 && cfg.Mode == "PP" {
+			cfg.ForkEmptyTail, cfg.Forks, cfg.EventPct, cfg.FinalFork = true, 2+g.Intn(3), 10, false
+		}
 		c16Run(r, caseID, g, cfg)
 	})
 	finish(t, r, r.N(20, 50), "PP/*", "FEP/*")
 }
 
 var _ aggsync.ReorgDetector = (*reorgdetector.ReorgDetector)(nil)
+
+
+// c16Diagnose lists the roots on which the node's table and the canonical chain disagree, with the
+// canonical history of each (for the replay file)
+func c16Diagnose(s *lastgersync.LastGERSync, ch *fakes.Chain, l1 *fakeL1Info) map[string]any {
+	out := map[string]any{}
+	canon := ch.Canonical()
+	live := liveGERs(canon, 1<<62)
+	inDB := map[common.Hash]string{}
+	var allRows []string
+	rows, err := s.VerifDB().Query(`SELECT block_num, global_exit_root, l1_info_tree_index FROM imported_global_exit_root ORDER BY block_num`)
+	if err == nil {
+		for rows.Next() {
+			var bn uint64
+			var ger string
+			var idx uint32
+			if rows.Scan(&bn, &ger, &idx) == nil {
+				inDB[common.HexToHash(ger)] = fmt.Sprintf("block %d index %d", bn, idx)
+				if len(allRows) < 60 {
+					allRows = append(allRows, fmt.Sprintf("%d:%s:idx%d", bn, ger[:10], idx))
+				}
+			}
+		}
+		out["table_rows"] = allRows
+		rows.Close()
+	} else {
+		out["db_error"] = err.Error()
+	}
+	hist := func(g common.Hash) []string {
+		var h []string
+		ins, rem := l2GERABI.Events["UpdateHashChainValue"].ID, l2GERABI.Events["UpdateRemovalHashChainValue"].ID
+		for _, b := range canon {
+			for _, l := range b.Logs {
+				if l.Address == l2GERAddr && len(l.Topics) > 1 && l.Topics[1] == g {
+					switch l.Topics[0] {
+					case ins:
+						h = append(h, fmt.Sprintf("inserted@%d", b.Num()))
+					case rem:
+						h = append(h, fmt.Sprintf("removed@%d", b.Num()))
+					}
+				}
+			}
+		}
+		return h
+	}
+	var d []string
+	stale := 0
+	var missing []common.Hash
+	for g, where := range inDB {
+		if !live[g] {
+			stale++
+			d = append(d, fmt.Sprintf("%s in the node's table (%s) but not live on the canonical chain: %v", g.Hex()[:10], where, hist(g)))
+		}
+	}
+	for g := range live {
+		if _, ok := inDB[g]; !ok {
+			missing = append(missing, g)
+			d = append(d, fmt.Sprintf("%s live on the canonical chain (index %d) but not in the node's table: %v", g.Hex()[:10], l1.byGER[g], hist(g)))
+		}
+	}
+	out["stale_rows"] = stale
+	out["missing_live_roots"] = missing
+	sort.Strings(d)
+	out["disagreements"] = d
+	lp, err := s.GetLastProcessedBlock(context.Background())
+	out["node_last_processed"] = fmt.Sprintf("%d %v", lp, err)
+	out["head"] = ch.Latest()
+	out["finalized"] = ch.Finalized()
+	var forks []string
+	for _, e := range ch.Events() {
+		if strings.HasPrefix(e, "fork") || strings.HasPrefix(e, "FORK") || strings.Contains(e, "fork ") {
+			forks = append(forks, e)
+		}
+	}
+	out["fork_events"] = forks
+	return out
+}
